@@ -81,7 +81,48 @@ func NewStakeCtrler(config *cfg.Config, govHandler ctrlertypes.IGovHandler, logg
 	// set `lastValidators` of StakeCtrler
 	_ = ret.UpdateValidators(int(govHandler.MaxValidatorCnt()))
 
+	// `allDelegatees` is not loaded yet, so the call above leaves `lastValidators` empty.
+	// Rebuild it from the persisted ledgers: a restarted node MUST continue exactly like a running one.
+	ret.restoreLastValidators(govHandler)
+
 	return ret, nil
+}
+
+// restoreLastValidators rebuilds the validator set that was reported to the consensus engine by the
+// last executed EndBlock. EndBlock(h) selects the validators among the delegatees committed at h-1,
+// with the governance parameters which were in force during block h (i.e. committed at h-1).
+func (ctrler *StakeCtrler) restoreLastValidators(govHandler ctrlertypes.IGovHandler) {
+	lastHeight := ctrler.delegateeLedger.Version()
+	if lastHeight <= 1 {
+		// nothing was committed before the last block; EndBlock(1) has reported no validator.
+		return
+	}
+
+	params := govHandler
+	if h, ok := govHandler.(interface {
+		GovParamsAt(int64) ctrlertypes.IGovHandler
+	}); ok {
+		if p := h.GovParamsAt(lastHeight - 1); p != nil {
+			params = p
+		}
+	}
+
+	immuLedger, xerr := ctrler.delegateeLedger.ImmutableLedgerAt(lastHeight-1, 128)
+	if xerr != nil {
+		ctrler.logger.Error("fail to restore the last validators", "error", xerr)
+		return
+	}
+
+	var delegatees DelegateeArray
+	minPower := ctrlertypes.AmountToPower(params.MinValidatorStake())
+	_ = immuLedger.IterateReadAllItems(func(d *Delegatee) xerrors.XError {
+		if d.SelfPower >= minPower {
+			delegatees = append(delegatees, d)
+		}
+		return nil
+	})
+	sort.Sort(PowerOrderDelegatees(delegatees))
+	ctrler.lastValidators = selectValidators(PowerOrderDelegatees(delegatees), int(params.MaxValidatorCnt()))
 }
 
 func (ctrler *StakeCtrler) InitLedger(req interface{}) xerrors.XError {
